@@ -6,6 +6,14 @@ extern "C" {
     pub(crate) fn js_debug_log(a: &str);
 }
 
+// Verification hook H3: no logging under the model checker (it is already empty in release builds)
+#[cfg(kani)]
+macro_rules! debug_log {
+    ($str:expr) => {};
+    ($fmt:expr, $($arg:tt)*) => {};
+}
+
+#[cfg(not(kani))]
 macro_rules! debug_log {
     ($str:expr) => {
         #[cfg(all(target_arch = "wasm32", debug_assertions, not(test)))]
